@@ -300,7 +300,7 @@ fn check_last(run: &Run, hist: &[Call], names: &[&str], srcs: &[SrcInfo], src_by
         if let Some(d) = refinement(&run.model, h) {
             st.count("refinement_mismatch", 1);
             if st.extra.get("refinement_mismatch") == Some(&1) {
-                eprintln!("WARNING: refinement mapping mismatch after {:?}: {d}", names);
+                crate::diag!("WARNING: refinement mapping mismatch after {:?}: {d}", names);
             }
         }
     }
@@ -439,12 +439,12 @@ pub fn run(args: &Args) -> i32 {
 
     let cap = if thorough { 200_000_000 } else { 20_000_000 };
     let (r1, capped1) = search(&full, d_full, &srcs, &mut ctx.stats, cap, 1);
-    eprintln!("  [C12] full alphabet depth {d_full}: states {} transitions {} per level {:?} at {:.1}s", r1.states, r1.transitions, r1.per_level, ctx.elapsed());
+    crate::diag!("  [C12] full alphabet depth {d_full}: states {} transitions {} per level {:?} at {:.1}s", r1.states, r1.transitions, r1.per_level, ctx.elapsed());
     if capped1 {
         ctx.cap(format!("full-alphabet search stopped at {} states", r1.states));
     }
     let (r2, capped2) = search(&core, d_core, &srcs, &mut ctx.stats, cap, 2);
-    eprintln!("  [C12] core alphabet depth {d_core}: states {} transitions {} per level {:?} at {:.1}s", r2.states, r2.transitions, r2.per_level, ctx.elapsed());
+    crate::diag!("  [C12] core alphabet depth {d_core}: states {} transitions {} per level {:?} at {:.1}s", r2.states, r2.transitions, r2.per_level, ctx.elapsed());
     if capped2 {
         ctx.cap(format!("core-alphabet search stopped at {} states", r2.states));
     }
